@@ -347,18 +347,19 @@ func c08BuildOps(cfg *c08Cfg) []c08Op {
 				enabled: func(s *c08Sys) bool {
 					// a re-delivery of an identical object is not an event
 					cur := s.metric[node]
-					return cur == nil || cur.mv != mv || (!mv.Empty && !cur.ut.Equal(s.now().Add(-mv.Behind)))
+					return cur == nil || cur.mv.ID != s.report(node, mv).ID || (!mv.Empty && !cur.ut.Equal(s.now().Add(-mv.Behind)))
 				},
 				apply: func(s *c08Sys) {
 					ut := s.now().Add(-mv.Behind)
-					m := c08BuildMetric(node, mv, ut)
+					inst := s.report(node, mv)
+					m := c08BuildMetric(node, inst, ut)
 					h := s.cache.NodeMetricHandler()
 					if cur := s.metric[node]; cur == nil {
 						h.OnAdd(m, false)
 					} else {
 						h.OnUpdate(cur.obj, m)
 					}
-					s.metric[node] = &c08MetricRef{mv: mv, ut: ut, obj: m}
+					s.metric[node] = &c08MetricRef{mv: inst, ut: ut, obj: m}
 				}})
 		}
 		if len(cfg.metrics[node]) > 0 {
@@ -377,6 +378,32 @@ func c08BuildOps(cfg *c08Cfg) []c08Op {
 		enabled: func(s *c08Sys) bool { return s.ticks < 4 },
 		apply:   func(s *c08Sys) { s.ticks++; s.clk.t = s.clk.t.Add(cfg.tick) }})
 	return ops
+}
+
+// report instantiates a metric content for the node as koordlet would write it now: pod usages only for the pods
+// that are on the node - bound there according to the informer, or assumed there (already running while the
+// scheduler's informer lags) - plus the content's explicitly leaked pods. Pods that leave afterwards stay in the
+// report until the next one (that is how leaked entries arise).
+func (s *c08Sys) report(node string, mv *c08MetricVar) *c08MetricVar {
+	inst := *mv
+	inst.Pods = map[string]c08PodUsage{}
+	var names []string
+	for n, pu := range mv.Pods {
+		known, here := false, false
+		for _, p := range s.pods {
+			if p.kind.Name == n {
+				known = true
+				here = (p.inf == c08Bound && p.spec.Node == node) || (p.res == c08ResLive && p.resNode == node)
+			}
+		}
+		if !known || here {
+			inst.Pods[n] = pu
+			names = append(names, n)
+		}
+	}
+	sort.Strings(names)
+	inst.ID = mv.ID + "{" + strings.Join(names, ",") + "}"
+	return &inst
 }
 
 func (s *c08Sys) Apply(op int, check bool) (bool, []mc.Violation) {
@@ -743,7 +770,7 @@ func c08Configs(env *mc.Env) []*c08Cfg {
 	}
 	// estimation window + custom estimation annotations + system usage counted for prod
 	add(&c08Cfg{name: "1node-window-xy", args: c08Args(90, true, true), nodes: []string{"n1"}, kinds: pick(c08Kinds(true), "xy"),
-		metrics: map[string][]*c08MetricVar{"n1": {m1[1], m1[2], m1[3]}}, depth: [2]int{5, 7}})
+		metrics: map[string][]*c08MetricVar{"n1": {m1[1], m1[2], m1[3]}}, depth: [2]int{5, 7}, tick: 61 * time.Second})
 	// two nodes: nodeName changes, binding to another node than the assumed one
 	add(&c08Cfg{name: "2nodes-xz", args: c08Args(0, false, false), nodes: []string{"n1", "n2"}, kinds: pick(c08Kinds(false), "xz"),
 		metrics: map[string][]*c08MetricVar{"n1": {m1[1], m1[3]}, "n2": m2}, depth: [2]int{5, 6}, tick: 90 * time.Second})
@@ -800,6 +827,9 @@ func c08HistParts(env *mc.Env) {
 		res.Bounds["pods"] = len(cfg.kinds)
 		res.Bounds["map_order_repeats"] = repeats
 		res.WallS = (env.Elapsed() - t0).Seconds()
+		if env.Replay != "" && res.Traces == 0 {
+			continue // the replay file belongs to another part
+		}
 		env.Emit(res)
 	}
 }
